@@ -108,9 +108,17 @@ Section Tree.
   Definition get_prev (prev : option (nat * nat) * option (nat * nat)) (pl : bool) :=
     if pl then fst prev else snd prev.
 
-  (** normalisation of chance weights: [total = probs.iter().sum(); *prob /= total] *)
+  (** normalisation of chance weights: [total = probs.iter().sum(); *prob /= total];
+      when the sum of the (finite, positive) weights overflows binary64 they are first
+      divided by their maximum (repair D14; over the reals this branch is never taken) *)
   Definition normalise (ws : list T) : list T :=
-    let total := sum ws in map (fun w => div NN w total) ws.
+    let total := sum ws in
+    if is_fin NN total then map (fun w => div NN w total) ws
+    else
+      let m := fold_left (fmax NN) ws (zero NN) in
+      let ws' := map (fun w => div NN w m) ws in
+      let total' := sum ws' in
+      map (fun w => div NN w total') ws'.
 
   (** ** [init_recurse] *)
   Fixpoint init (n : gnode) (prev : option (nat * nat) * option (nat * nat)) (s : bst)
